@@ -104,7 +104,8 @@ impl Stream for Cycle {
         ))
     }
     fn pythonic_index_isize(&self, i: isize) -> NRes<Obj> {
-        Ok(self.0[(self.1 as isize + i).rem_euclid(self.0.len() as isize) as usize].clone())
+        let n = self.0.len();
+        Ok(self.0[(self.1 + i.rem_euclid(n as isize) as usize) % n].clone())
     }
     fn reversed(&self) -> NRes<Seq> {
         let mut v: Vec<Obj> = (*self.0).clone();
